@@ -198,7 +198,7 @@ func c10HTTP(e *c10Env) {
 		if res == "panic" || (first != "255" && first != "") {
 			e.x.r.Violate(rep.Violation{Kind: "oracle", Check: "C10.panic", Signature: fmt.Sprintf("C10.unsupported-cipher:%d:%s:first-answer-%s", id, res, first),
 				Input: fmt.Sprintf("honest TO2 of a device offering cipher suite %d (not one of the implemented tunnel ciphers)", id),
-				Impl: fmt.Sprintf("run: %s; answer to HelloDevice: Message-Type %q", res, first), PropertyFails: true})
+				Impl:  fmt.Sprintf("run: %s; answer to HelloDevice: Message-Type %q", res, first), PropertyFails: true})
 		}
 	}
 
